@@ -25,6 +25,9 @@ OBLIGATIONS = [
     "NanoVerif.C14.copyRuns_eq_runs",
     "NanoVerif.C12.svg_gids_stable",
     "NanoVerif.C12.svg_glue_keeps_glyphs",
+    "NanoVerif.C12.own_region_placement",
+    "NanoVerif.C12.own_region_is_flip",
+    "NanoVerif.C12.view_box_is_region",
 ]
 DESIGN_REF = "DESIGN.md §5 C12"
 LEVEL_TEXT = ("Partial proof by composition + end-to-end exploration. The Lean obligations are the theorems the pipeline composes: the advance is preserved "
